@@ -76,6 +76,14 @@ def check_guards(ctx, lib):
                     tt, ft = br.bool_edges(blk)
                     zero_sw = (blk, tt, ft) if c[1] == "Eq" else (blk, ft, tt)
     if zero_sw is None:
+        # the same test as a literal pattern (`Ast::Slice { step: 0, .. } => ..`): a switch on the step itself
+        for blk in sorted(arm | {blk0}):
+            t_ = b.blocks[blk]["term"]
+            if t_["k"] == "switch" and t_["discr"].get("k") in ("copy", "move") and o.of_operand(t_["discr"]) == {step_t}:
+                tg = dict((v, x) for v, x in t_["targets"])
+                if set(tg) == {0} and tg[0] != t_["otherwise"]:
+                    zero_sw = (blk, tg[0], t_["otherwise"])
+    if zero_sw is None:
         ctx.bad(rule, "step-zero-test", "the Slice arm does not test step == 0", b.span)
         return
     zblk, zero_t, nonzero_t = zero_sw
